@@ -172,6 +172,7 @@ def _vm_goal(cid, case, out):
     if not (last.startswith("C[") and last.endswith("]")):
         return None
     f = last[2:-1].split("|")
+
     o1, o2 = _vm_obs(f[0], n, T, froms), _vm_obs(f[1], n, T, froms)
     if o1 is None or o2 is None or f[1] != f[2] or f[1] != f[3] or f[1] != f[4]:
         return None
